@@ -252,8 +252,25 @@ CHECKS.append({
             "F5 (two .bin parts with different default content types) repaired by a fix: commit.",
 })
 
+CHECKS.append({
+    "property_id": "C02",
+    "technique": "contract-based deductive verification (pyvc: per-function preservation of the package invariant CLOSED over ghost relationship stores as z3 arrays; cache-validity obligation by symbolic execution of the real lazy properties; z3) + bounded native histories",
+    "category": "proof",
+    "text": "CLOSED(part): every r:id referenced in the XML is a relationship key, keys unique, internal targets are part objects, what is serialised for a relationship follows the "
+            "target's current name. Contracts: _Relationships._get_matching (first match by mode and target, loop invariant), get_or_add / get_or_add_ext_rel (reuse => collection unchanged; "
+            "else one relationship under the fresh key, other keys untouched), relate_to, related_part/target_ref (KeyError only for unknown ids), XmlPart.drop_rel (removed iff fewer than two "
+            "r:id references -- counting axiom of len over the real comprehension), run hyperlink / click-action hyperlink / slide-jump setters (set, change, clear preserve CLOSED; rId obtained "
+            "before it is written), creators (_MoviePicElementCreator, _OleObjectElementCreator, add_picture, add_chart, SlidePart part-level creators, ChartWorkbook.xlsx_part: the rId written is "
+            "the rId the part returned), SlideLayouts.remove (refusal changes nothing; element removed then relationship dropped), _Relationship.target_ref/target_partname after Part.partname.fset "
+            "(cache validity), Part.content_type write-once (static scan + symbolic read).",
+    "note": "Assumed: C06 allocator contracts (fresh rId, part names), lxml xpath contract for //@r:id, Part equality is identity. Closure over all interleavings is by induction over the "
+            "per-function contracts; functions without a contract and equality of the re-opened object graph are covered by the bounded C02.native_histories job only (80/1200 random histories over "
+            "14 operation kinds from the default template and from a deck with out-of-order slide part names; never counted as proved). F10 (stale cached relationship targets after rename) repaired "
+            "by a fix: commit.",
+})
+
 NOT_APPLICABLE = [
     {"property_id": p, "reason": _PENDING}
-    for p in ["C02", "C03", "C07", "C12",
+    for p in ["C03", "C07", "C12",
               ]
 ]
